@@ -92,6 +92,12 @@ impl<H: Host> Emulator<H> {
         self.controller.verif_paging()
     }
 
+    /// Verification hook: contents of a RAM bank, independent of the current paging
+    #[cfg(rustzx_verif)]
+    pub fn verif_ram_bank(&self, bank: u8) -> &[u8] {
+        self.controller.memory.ram_page_data(bank)
+    }
+
     /// Verification hook: CPU write through the bus (no time passes)
     #[cfg(rustzx_verif)]
     pub fn verif_bus_write(&mut self, addr: u16, value: u8) {
